@@ -123,6 +123,25 @@ def jobs_do_not_share_settings():
              j1.settings.maps[0] is not j2.settings.maps[0] and not leaked, {'leaked': leaked})]
 
 
+def init_settings_resets_options():
+    """Reactor.init_settings ASSIGNS every registered option its default: a value left in the mapping by an earlier
+    job (bypass_build_status set by an admin on another pull request) does not survive it"""
+    import copy
+    from types import SimpleNamespace
+    import bert_e.workflow.gitwaterflow as gwf
+    from bert_e.reactor import Reactor
+    from bert_e.lib.settings_dict import SettingsDict
+    gwf.setup({})
+    opts = Reactor.get_options()
+    snapshot = {k: copy.deepcopy(o.default) for k, o in opts.items()}
+    stale = {k: (not v if isinstance(v, bool) else 'stale') for k, v in snapshot.items()}
+    job = SimpleNamespace(settings=SettingsDict(dict(stale), {}))
+    Reactor().init_settings(job)
+    kept = sorted(k for k in opts if job.settings[k] != snapshot[k])
+    return [('Reactor.init_settings overwrites option values left over from an earlier job', not kept,
+             {'options_keeping_a_stale_value': kept})]
+
+
 def task_queue_unbounded():
     """put_job is called from webhook threads AND from the worker itself (rebuild_queues): a bounded queue would let
     the worker block on its own queue"""
